@@ -314,8 +314,25 @@ impl Property for C09 {
             prop_oneof![3 => Just(None), 1 => prop_oneof![Just(None), any::<u8>().prop_map(Some)].prop_map(Some)],
         )
             .prop_map(|(threshold, syncing, api_access, sync_gate, lazy, burn, fees, watchdog)| ArgSpec { threshold, syncing, api_access, sync_gate, lazy, burn, fees, watchdog });
-        (scenario_strategy(evs, 3, false, true, true), prop_oneof![1 => Just(None), 1 => arg.prop_map(Some)])
-            .prop_map(|(scenario, final_arg)| Case09 { scenario, final_arg })
+        // `mask`: in half of the cases extra upgrades are placed right behind heartbeats that run
+        // under a small budget (where a paused ingestion is most likely), one per set bit
+        (scenario_strategy(evs, 3, false, true, true), prop_oneof![1 => Just(None), 1 => arg.prop_map(Some)], prop_oneof![1 => Just(0u32), 1 => any::<u32>()])
+            .prop_map(move |(mut scenario, final_arg, mask)| {
+                let mut out = Vec::with_capacity(scenario.evs.len() + 8);
+                let mut k = 0u32;
+                for e in scenario.evs.drain(..) {
+                    let small = matches!(e, Ev::Beat(Some(b)) if b <= 3);
+                    out.push(e);
+                    if small {
+                        if mask & (1 << (k % 32)) != 0 && out.len() < evs + 8 {
+                            out.push(Ev::Upgrade);
+                        }
+                        k += 1;
+                    }
+                }
+                scenario.evs = out;
+                Case09 { scenario, final_arg }
+            })
             .boxed()
     }
     fn cases(&self, tier: Tier) -> u32 {
